@@ -425,6 +425,16 @@ fn exec<'a>(
                 if handle >= hs.len() || !hs[handle].opened {
                     continue;
                 }
+                // a caller may ask the search iterator for its size hint at any time; that is a
+                // question, not a pull
+                if let Some(it) = hs[handle].it.as_ref() {
+                    let before = world.borrow().pulls[handle];
+                    let _ = it.size_hint();
+                    let after = world.borrow().pulls[handle];
+                    if after != before {
+                        viol!("lazy", "handle {handle}: size_hint() of the search iterator pulled {} byte(s) from the source", after - before);
+                    }
+                }
                 let mut w = world.borrow_mut();
                 w.c.p_inspect += 1;
                 let p = w.pulls[handle];
@@ -643,12 +653,13 @@ fn exec<'a>(
             let style = sc.finish_style - 1;
             let pre = (hst.got.len() + h) % 4;
             let a = pma.consume_iter(hspec.method, Box::new(fin.to_vec().into_iter()), pre, style);
-            let b = pma.consume_slice(hspec.method, pma::Hay::plain(fin), pre, style);
+            let inline = (hst.got.len() + fin.len()) % 2 == 1;
+            let b = pma.consume_slice(hspec.method, pma::Hay::plain(fin), inline, pre, style);
             if a != b {
                 viol!(
                     "same-matches",
-                    "handle {h} ({:?}): {pre} next() call(s) then {} give {:?} on the byte-iterator search and {:?} on the slice search of the same {} bytes",
-                    hspec.method, pma::style_name(style), a, b, fin.len()
+                    "handle {h} ({:?}): {pre} next() call(s) then {} give {:?} on the byte-iterator search and {:?} on the slice search of the same {} bytes{}",
+                    hspec.method, pma::style_name(style), a, b, fin.len(), if inline && fin.len() <= pma::INLINE_MAX { " (passed by value in an inline container)" } else { "" }
                 );
             }
         }
